@@ -291,6 +291,10 @@ def generate(tier, rng):
              "a\x01b := ((", "é\u0301 := 👨‍👩‍👧 + ├└│", "x := 1\n\n\n", "\n\n\nx := ", "x := 1;;; y := 2", "-- comment", "-- comment\n(", "```mech\nx := (\n```\n", "```mech\nx := 1\n", "```\n",
              "# Title\n\n## Sub\n\n  x := [1 2\n\nparagraph ( text\n", "| a | b |\n|---|---|\n| 1 |", "| x<u8> y |\n| 1", "#Counter(n<u64>) => <u64>\n  ├ :Count(n<u64>)\n  └ :Done(n<u64>", "╭◉╮", "╭◉", "⸢", "⸢ x := 1", "⸢⸢", "(˙◯˙", "x := 0x", "x := 1e", "x := 1.", "x := 5u", "x<", "x<u8", "x<[u8]:2,", "x<u8> :=",
              "x := 1\x00", "\x00", "\ufeffx := 1", "x := \u202e1", "👨‍👩‍👧", "🇨🇦 := 1", "e\u0301", "\u0301", "\u0301\u0301 := 1", "x\u2028y := 1", "x := 1 \u0085 y := 2"]
+    # inline Mech code in prose with a syntax error inside it (the error is recovered inside the paragraph: it must still be
+    # reported, and the tree must not silently lack the text)
+    fixed += ["Hello {{qzx := }} world", "- item {{qzx := }} more\n- second\n", "Total {{(qzx + 1}} done", "A {{x := [1 2}} b\n\nnext paragraph",
+              "1. one {{y<u8 := 1}} two\n2. three", "> quote {{z := 0x}} end", "text {{a := {1, 2}} tail {{b := 2}} end", "Para {{f(x}} and {{g(}}.\n"]
     for t in fixed:
         add(emit(t, stream="fixed"))
     # all one- and two-character strings over a compact alphabet
